@@ -76,6 +76,8 @@ type mirror struct { // what the emitted steps have told the model about a node
 	held, heldIn, heldOut      bool
 	holeLo, holeHi             []uint64
 	deadLast                   uint64 // entryLog.lastIndex() when the node was killed
+	lateReplay                 bool   // this life applied its start-up replay after newer entries
+	replayPending              bool
 }
 
 type H struct {
@@ -191,7 +193,7 @@ func (h *H) settle() {
 	}
 	var prev string
 	stable := 0
-	ok := waitFor(8*time.Second, func() bool {
+	ok := waitFor(120*time.Second, func() bool {
 		cur := h.rawState()
 		if cur == prev && h.quiet() {
 			stable++
@@ -632,6 +634,8 @@ func (h *H) check(line int) {
 				class, why = "apply_error_skipped", "the apply of the entry failed on this node and was only logged"
 			case h.inHole(n, uint64(idx)):
 				class, why = "dataless_snapshot_install", "the node was moved over the entry by a raft snapshot that carries no rows"
+			case h.mir[n].lateReplay:
+				class, why = "replay_races_with_commit_loop", "the node applied its start-up replay after entries committed since"
 			case h.prof == "multishard":
 				class, why = "snapshot_covers_unflushed_shard", "the raft snapshot index taken at the flush of another shard covered the entry"
 			}
@@ -836,11 +840,31 @@ func (h *H) actHoldIn(n int, on bool) {
 	h.after(fmt.Sprintf("hold-in n%d %v", n, on))
 }
 
-func (h *H) actRestart(n int) {
+// actRestartLate / actReplayLate: the node is up and follows the leader while its start-up replay
+// has not been applied yet
+func (h *H) actRestartLate(n int) { h.restart(n, true) }
+
+func (h *H) actReplayLate(n int) {
+	if !h.mir[n].up || !h.mir[n].replayPending {
+		return
+	}
+	if !h.cl.releaseReplay(n) {
+		h.fail("replay of node %d does not end", n)
+		return
+	}
+	h.mir[n].replayPending = false
+	h.emit(fmt.Sprintf("replaylate %d", n))
+	h.c.Count("replay-late")
+	h.after(fmt.Sprintf("replay-late n%d", n))
+}
+
+func (h *H) actRestart(n int) { h.restart(n, false) }
+
+func (h *H) restart(n int, late bool) {
 	if h.mir[n].up {
 		return
 	}
-	if err := h.cl.start(n, h.cl.nodes[n].dir); err != nil {
+	if err := h.cl.startMode(n, h.cl.nodes[n].dir, late); err != nil {
 		h.fail("restart node %d: %v", n, err)
 		return
 	}
@@ -851,6 +875,13 @@ func (h *H) actRestart(n int) {
 	m.last, m.commit = o.last, o.commit
 	if m.last > uint64(len(h.clog)) {
 		m.last = uint64(len(h.clog))
+	}
+	m.lateReplay, m.replayPending = late, late
+	if late {
+		h.emit(fmt.Sprintf("restartlate %d", n))
+		h.c.Count("restart-late")
+		h.after(fmt.Sprintf("restart-late n%d", n))
+		return
 	}
 	h.emit(fmt.Sprintf("restart %d", n))
 	h.c.Count("restart")
